@@ -411,8 +411,9 @@ impl Gen {
                 m.tlvs = vec![Tlv::new(ty, vec![0x42; wire.saturating_sub(4)])];
             }
             8 => {
-                // several TLVs filling the room exactly / almost
-                let mut left = room;
+                // several TLVs whose sizes add up to the room exactly / almost / just beyond it
+                // (each one fits on its own; together they probe the margin accounting)
+                let mut left = (room as i64 + [-4i64, -2, 0, 0, 2, 4, 6][self.rng.gen_range(0..7)]).max(16) as usize;
                 let mut v = vec![];
                 while left >= 8 && v.len() < 6 {
                     let w = if v.len() == 5 || left < 40 { left } else { (self.rng.gen_range(8..=left.min(400)) / 2) * 2 };
